@@ -12,7 +12,7 @@ rsync -a --exclude .git /repo/ "$d/"
 ( cd "$d" && go build ./... ) || { echo "MUTANT DOES NOT BUILD"; rm -rf "$d"; exit 4; }
 rc=0
 for c in "$@"; do
-  out=$(IMVERIF_ROOT=/var/tmp/imverif-mutroot-$$ true; /verif/bin/imverif check "$c" --repo "$d" 2>&1)
+  out=$(IMVERIF_EVIDENCE="$d/.evidence" /verif/bin/imverif check "$c" --repo "$d" 2>&1)
   echo "$out" | grep -E "^VIOLATION|^  rule=|^  [a-zA-Z]|^C[0-9]+ \[" | sed "s#$d/##g" | head -${MUT_LINES:-12}
 done
 rm -rf "$d"
